@@ -10,8 +10,8 @@
 (*               explanation Explains (ExplainCorrect); structural invariants of the record. *)
 (* Each completed merge sequence is printed as a vector ("VEC", hist) and replayed on the    *)
 (* real CongClosure / CongClosureHOL by harness/drivers/c17.py.                             *)
-EXTENDS C17_Closure, C17_CongCAlgo, CSV, IOUtils
-CONSTANTS Consts, MaxOps, Queries, EmitAll
+EXTENDS C17_Closure, C17_CongCAlgo, CSV, IOUtils, SequencesExt
+CONSTANTS Consts, MaxOps, Queries, EmitAll, ChainMode
 VARIABLES rep, classList, useList, lookup, forest, pending, hist, q
 vars == <<rep, classList, useList, lookup, forest, pending, hist, q>>
 Pairs == Consts \X Consts
@@ -40,8 +40,15 @@ Explain(s, t) == /\ Queries /\ pending = <<>> /\ q = NoQ /\ hist # <<>> /\ TestA
                  /\ UNCHANGED <<rep, classList, useList, lookup, forest, pending, hist>>
 Return == q # NoQ /\ q' = NoQ /\ UNCHANGED <<rep, classList, useList, lookup, forest, pending, hist>>
 \* (two disjuncts: TLC's simulator first picks a disjunct, so long random sequences mix both kinds of equation)
-Next == \/ \E e \in CEqs(Consts) : Merge(e)
-        \/ \E e \in FEqs(Consts) : Merge(e)
+\* ChainMode: the merged equations are the edges of ONE path through all the constants, each edge once, in every order and
+\* orientation (end-to-end, middle-out, ...): the family that builds deep proof-forest paths on both sides of a merge
+\* (a class of k constants explained by a path needs k constants; three or four never put a merged endpoint two edges below its root)
+ChainSeq == SetToSeq(Consts)
+ChainEdges == { <<"c", ChainSeq[i], ChainSeq[i+1]>> : i \in 1..(Len(ChainSeq) - 1) } \cup { <<"c", ChainSeq[i+1], ChainSeq[i]>> : i \in 1..(Len(ChainSeq) - 1) }
+CPool == IF ChainMode THEN { e \in ChainEdges : \A i \in 1..Len(hist) : hist[i] # e /\ hist[i] # <<"c", e[3], e[2]>> } ELSE CEqs(Consts)
+FPool == IF ChainMode THEN {} ELSE FEqs(Consts)
+Next == \/ \E e \in CPool : Merge(e)
+        \/ \E e \in FPool : Merge(e)
         \/ PropagateOne
         \/ \E p \in Pairs : Test(p[1], p[2]) \/ Explain(p[1], p[2])
         \/ Return
